@@ -46,11 +46,25 @@ def clear_rule(ctx, r):
         r.ok("clear|fields", "clear resets %s" % sorted(need), fn=h)
     else:
         r.bad("clear|fields", "LineBuffer::clear does not reset %s" % sorted(need - got), fn=h, construct="clear")
+    # ... and the size of the read window: a buffer grown for one reader's long line would otherwise make the next
+    # reader's first read larger, and how far ahead binary data is noticed (before or after the first match is
+    # delivered) depends on that size — the result for a file would depend on what was searched before it
+    ebh = ExprBuilder(h)
+    shr = [c for c in h.calls() if c.path in ("alloc::vec::Vec::truncate", "alloc::vec::Vec::resize") and
+           mentions_field(ebh.operand(c.args[0]), LB, "buf")]
+    if shr and mentions_field(ebh.operand(shr[0].args[1]), "grep_searcher::line_buffer::Config", "capacity"):
+        r.ok("clear|window", "clear brings the buffer back to the configured capacity", fn=h)
+    else:
+        r.bad("clear|window", "LineBuffer::clear keeps the buffer at whatever size an earlier reader grew it to: the next reader "
+              "reads more at once, notices binary data further ahead, and a file is dropped (or not) depending on which file "
+              "the same searcher handled before it", fn=h, construct="clear")
 
 def run(ctx):
     facts = ctx.facts
     with ctx.rule("C02.GATE", "one strategy predicate; every strategy run site enumerated; line strategies behind check_config", floor=12, kind="GUARD/PARITY") as r:
         c13.strategy_rule(ctx, r)
+        from . import c11
+        c11.multiline_anchor_rule(ctx, r)
         runs = []
         for f in facts.fns_in(SEARCHER + "::"):
             for c in f.calls():
